@@ -17,9 +17,17 @@ type lockedBuf struct {
 	b  bytes.Buffer
 }
 
-func (l *lockedBuf) Write(p []byte) (int, error) { l.mu.Lock(); defer l.mu.Unlock(); return l.b.Write(p) }
-func (l *lockedBuf) Bytes() []byte               { l.mu.Lock(); defer l.mu.Unlock(); return append([]byte(nil), l.b.Bytes()...) }
-func (l *lockedBuf) Len() int                    { l.mu.Lock(); defer l.mu.Unlock(); return l.b.Len() }
+func (l *lockedBuf) Write(p []byte) (int, error) {
+	l.mu.Lock()
+	defer l.mu.Unlock()
+	return l.b.Write(p)
+}
+func (l *lockedBuf) Bytes() []byte {
+	l.mu.Lock()
+	defer l.mu.Unlock()
+	return append([]byte(nil), l.b.Bytes()...)
+}
+func (l *lockedBuf) Len() int { l.mu.Lock(); defer l.mu.Unlock(); return l.b.Len() }
 
 func sizesOf(s string) []int {
 	var out []int
